@@ -21,9 +21,13 @@ def opCfg : List String → Option String
       ttl := ← parseInt ttl, hb := ← parseInt hb, val := ← parseInt val, grace := ← parseInt gr,
       maxFail := ← parseInt mf, prio := ← parseInt pr, takeover := ← parseBool tk }
     let doc := decide (Config.Documented c)
+    -- every field that really breaks a documented rule (the implementation's error must name one of them)
+    let offenders := ["Bucket", "Group", "InstanceID", "TTL", "HeartbeatInterval", "ValidationInterval", "DisconnectGracePeriod",
+                      "MaxConsecutiveFailures", "Priority"].filter fun f => decide (Config.Offends c f)
+    let offs := if offenders.isEmpty then "-" else ",".intercalate offenders
     match Config.validate Gen.configRules c with
-    | none => pure s!"ok doc={boolStr doc}"
-    | some f => pure s!"err {f} doc={boolStr doc} offends={boolStr (decide (Config.Offends c f))}"
+    | none => pure s!"ok doc={boolStr doc} offenders={offs}"
+    | some f => pure s!"err {f} doc={boolStr doc} offends={boolStr (decide (Config.Offends c f))} offenders={offs}"
   | _ => none
 
 /-- "nil" ↦ none, otherwise a hex string ("-" = empty). -/
